@@ -46,7 +46,7 @@ func expectedStatus(ret Ret) *spb.Status {
 		return &spb.Status{Code: int32(ret.Code), Message: ret.Msg}
 	}
 	return nil
-	}
+}
 
 func genRet(r *rand.Rand) Ret {
 	switch r.Intn(10) {
@@ -113,7 +113,7 @@ func genStatusScript(r *rand.Rand, kind Kind, half bool) *Script {
 		s.Receiver = append(s.Receiver, Op{Op: "recv"}, Op{Op: "recv"})
 	}
 	return s
-	}
+}
 
 func statusProtoOf(err error) *spb.Status {
 	if err == nil {
